@@ -188,6 +188,11 @@ impl ProgGen {
             // deliberate overlap: a constant named like a register
             names.consts.push(t.pick(REGS).to_string());
         }
+        if crate::engine::gen_version() >= 2 && t.chance(1, 6) {
+            // v2, deliberate overlap: a GLOBAL constant named like a nested label (`l0 = 3` beside `g1.l0:`):
+            // `.l0` and `l0` are different symbols
+            names.consts.push(t.pick(LOCALS).to_string());
+        }
 
         // constants at the top: literals and chains
         for (i, c) in names.consts.clone().iter().enumerate() {
@@ -439,7 +444,15 @@ impl ProgGen {
                                     let v = if t.flip() { BigInt::from(t.draw(1 << w.min(8))) } else { boundary_value(t, w) };
                                     int_expr(&v, t)
                                 }
-                                1 if !names.globals.is_empty() => E::Var(t.pick(&names.globals).clone()),
+                                1 if !names.globals.is_empty() => {
+                                    // v2: sometimes a nested label of the current scope, spelled relatively
+                                    let here: Vec<&(String, String)> = names.locals.iter().filter(|(p, _)| Some(p) == cur_global.as_ref()).collect();
+                                    if crate::engine::gen_version() >= 2 && !here.is_empty() && t.flip() {
+                                        E::Var(format!(".{}", here[t.below(here.len())].1))
+                                    } else {
+                                        E::Var(t.pick(&names.globals).clone())
+                                    }
+                                }
                                 _ => E::Var("$".into()),
                             },
                             None => match t.weighted(&[3, 2, 1]) {
